@@ -98,6 +98,12 @@ def term_from_model(h, rng):
         raise vlib.InfraError("history does not begin with Start: %r" % (st,))
     cfg = term_cfg(st["vaOwner"], st["tgp"], st["instant"])
     steps = prelude(st["kind"])
+    if st["kind"] == "registered":
+        r = rng.random()
+        if r < 0.15:
+            steps.append({"a": "PreTaint", "which": rng.choice(["PreferNoSchedule", "NoExecute"])})
+        elif r < 0.3:
+            steps.append({"a": "PodPhase", "pod": "p1", "phase": rng.choice(["Succeeded", "Failed"])})
     for e in h[1:]:
         a = e["a"]
         if a in ("LcRec", "NodeRec"):
@@ -192,6 +198,19 @@ def term_paths():
         {"a": "DeleteClaim"}, {"a": "LcRec"}, {"a": "NodeRec"}, {"a": "QAll"}, {"a": "PodGone", "pod": "p1"}, {"a": "Tick", "d": 6},
         {"a": "NodeRec"}, {"a": "NodeRec"}, {"a": "VolumeDetachStart", "pod": ""}, {"a": "NodeRec"}, {"a": "Tick", "d": 30}, {"a": "NodeRec"},
         {"a": "VolumeDetach", "pod": ""}, {"a": "NodeRec"}, {"a": "NodeRec"}, {"a": "LcRec"}, {"a": "LcRec"}]))
+    # 11. the node already carries the karpenter.sh/disrupted KEY with another effect: it still has to get the NoSchedule taint
+    for eff in ("PreferNoSchedule", "NoExecute"):
+        P.append(("pretaint-" + eff, "registered", term_cfg("p1", False, False), [
+            {"a": "PreTaint", "which": eff}, {"a": "DeleteClaim"}, {"a": "LcRec"}, {"a": "NodeRec"}, {"a": "QAll"}, {"a": "PodGone", "pod": "p1"},
+            {"a": "Tick", "d": 6}, {"a": "NodeRec"}, {"a": "VolumeDetach", "pod": "p1"}, {"a": "NodeRec"}, {"a": "InstanceGone"}, {"a": "NodeRec"},
+            {"a": "LcRec"}, {"a": "LcRec"}]))
+    # 12. a Succeeded / Failed pod stays bound to the node with its volume attached: Karpenter could drain that pod, so its
+    #     VolumeAttachment blocks like any other (only volumes of pods it will NOT drain are exempt)
+    for ph in ("Succeeded", "Failed"):
+        P.append(("terminal-pod-volume-" + ph, "registered", term_cfg("p1", False, False), [
+            {"a": "PodPhase", "pod": "p1", "phase": ph}, {"a": "DeleteClaim"}, {"a": "LcRec"}, {"a": "NodeRec"}, {"a": "Tick", "d": 6},
+            {"a": "NodeRec"}, {"a": "NodeRec"}, {"a": "InstanceGone"}, {"a": "NodeRec"}, {"a": "NodeRec"}, {"a": "VolumeDetachStart", "pod": "p1"},
+            {"a": "NodeRec"}, {"a": "VolumeDetach", "pod": "p1"}, {"a": "NodeRec"}, {"a": "LcRec"}, {"a": "LcRec"}]))
     # 10. a drainable pod is bound directly to the node after Drained=True was persisted, while the controller waits for
     #     the volume and then for the instance: it has to be drained again before the finalizer goes
     P.append(("late-pod", "registered", term_cfg("p1", False, False), [
